@@ -811,9 +811,10 @@ func c05Worker(w *W) {
 			a.Write([]byte("id-fifo1-1 through the pipe\n"))
 			a.Stop()
 			w.Eval(1)
-			fds := fdsInto(pdir)
 			select {
 			case b := <-eof:
+				// (the reader has closed its own descriptor before reporting: whatever is still listed belongs to the library)
+				fds := fdsInto(pdir)
 				if len(fds) != 0 {
 					w.Violate("C05:fd-leak:File", fmt.Sprintf("descriptors open after Stop of an appender writing to a named pipe: %v", fds), cs)
 				} else if !bytes.Contains(b, []byte("id-fifo1-1")) {
@@ -822,8 +823,9 @@ func c05Worker(w *W) {
 					w.Distinct("fifo-target")
 				}
 			case <-time.After(10 * time.Second):
-				if len(fds) != 0 {
-					w.Violate("C05:fd-leak:File", fmt.Sprintf("Stop returned, but the process still holds %v (the target is a named pipe, on which fsync fails): its reader never sees end-of-file", fds), cs)
+				// the reader still holds its end; a second descriptor on the pipe is the appender's
+				if fds := fdsInto(pdir); len(fds) >= 2 {
+					w.Violate("C05:fd-leak:File", fmt.Sprintf("Stop returned, but the process still holds a writing descriptor on the target (a named pipe, on which fsync fails): its reader never sees end-of-file; descriptors: %v", fds), cs)
 				} else {
 					w.Inconclusive("fifo scenario: no descriptor listed, yet the reader saw no end-of-file")
 				}
